@@ -31,9 +31,9 @@ func init() {
 	core.Register(&core.Check{
 		ID:    "C06",
 		Level: "exploration",
-		Rule: "level 0: every alphabet string x every construction route; level 1: every operation variant x ALL level-0 representation states in every operand position; level d>=2: every operation variant with one operand ranging over ALL representation states first reached at level d-1 and the other operands over the argument pool A (templates: pool Z) - enumerated by index, no sampling. A representation state is (internal representation tag, code units); operations only see that state, so each state is expanded once (witness = first tree reaching it). " +
-			"Every tree is judged against strmodel (result kind, code units, representation normal form). Then, for every distinct content (group), all ordered pairs of reached states are compared through every observable, and every group is compared with its neighbours in code-unit order and with its one-unit-shorter prefix. " +
-			"distinct_nontrivial counts the groups (distinct by content) for which at least 2 internal representations were reached and compared.",
+		Rule: "Enumeration by index, no sampling. depth0: every alphabet string x every construction route. depth1-full: every operation variant x ALL depth-0 representation states in every operand position (templates of the replace family: depth-0 states + $-templates). depth2-restricted: every 'deep' operation variant (all unary non-regexp variants and a fixed subset of the binary/ternary/regexp ones) with one operand (position 1 or 2) ranging over ALL representation states first reached at depth 1 whose length is <= 24 code units, the other operands over the small pools. thorough adds depth2-full (all variants, every operand position, the large pools A and Z) and depth3-restricted (as depth2-restricted over the depth-2 states; judged against the model only). " +
+			"A representation state is (internal representation tag, code units); operations only see that state of their operands, so each state is expanded once (witness = the first tree reaching it in enumeration order). Every tree is judged against strmodel: result kind, code units, representation normal form. After every recording stage, for every distinct content (group) all ordered pairs of reached representation states are compared through every observable (a lazily scanned imported string is produced afresh for every single observation), and every group is compared with its successor in code-unit order and with its one-unit-shorter prefix (equal tags: reduced observable set). " +
+			"distinct_nontrivial counts the groups (distinct contents) for which at least 2 internal representations were reached and compared pairwise; groups are distinct by construction.",
 		Run:    run,
 		Replay: replay,
 	})
@@ -85,6 +85,7 @@ type checker struct {
 	smallZ []*state
 
 	stateCapHit atomic.Bool
+	cut         atomic.Bool // the soft deadline stopped a stage
 	sink        sink
 	hangRA      bool // the replaceAll("")-on-UTF-16 hang is present: that class is excluded from the enumeration
 	aborted     atomic.Bool
@@ -162,7 +163,7 @@ func run(r *core.Run) {
 	for i := range stages {
 		st := &stages[i]
 		st.no = i
-		if r.Expired() {
+		if r.Expired() || c.cut.Load() {
 			complete = false
 			break
 		}
@@ -197,10 +198,14 @@ func run(r *core.Run) {
 		complete = false
 		r.Set("state_cap_hit", true)
 	}
+	if c.cut.Load() {
+		complete = false
+		r.Set("budget_cut", fmt.Sprintf("work distribution stopped %v before the deadline", softMargin))
+	}
 	nt := int64(0)
 	reprs := map[string]int64{}
 	for _, g := range c.groups {
-		if len(g.states) >= 2 {
+		if len(g.states) >= 2 && !g.dirty { // dirty: a state was added whose pairs were not compared (run cut)
 			nt++
 		}
 		for _, s := range g.states {
@@ -227,6 +232,9 @@ func cpuSeconds() float64 {
 
 const hangLimit = 10 * time.Second
 
+// softMargin: see guarded.
+const softMargin = 4 * time.Second
+
 // maxExpandLen: results longer than this many code units are judged and take part in the pair phase but are
 // not expanded further (the leaf alphabet's longest string has 19 units).
 const maxExpandLen = 24
@@ -234,8 +242,20 @@ const maxExpandLen = 24
 // guarded runs r.Parallel and returns early (aborted) when one worker sits on a single case for longer
 // than hangLimit: the operation is then a non-terminating native loop, which no deadline can interrupt.
 func (c *checker) guarded(n, chunk int64, what string, fn func(worker int, lo, hi int64)) bool {
+	// stop handing out work a little before core's deadline so that the bookkeeping after the last chunk
+	// (flush, counters, evidence) still fits into the budget
+	soft := c.r.Deadline.Add(-softMargin)
 	doneCh := make(chan bool, 1)
-	go func() { doneCh <- c.r.Parallel(n, chunk, fn) }()
+	go func() {
+		ok := c.r.Parallel(n, chunk, func(worker int, lo, hi int64) {
+			if time.Now().After(soft) {
+				c.cut.Store(true)
+				return
+			}
+			fn(worker, lo, hi)
+		})
+		doneCh <- ok && !c.cut.Load()
+	}()
 	last := make([]uint64, len(c.slots))
 	since := make([]time.Time, len(c.slots))
 	now := time.Now()
@@ -327,7 +347,7 @@ func (c *checker) hangProbe() {
 	if hang {
 		c.r.Violation("replaceAll|empty-search-on-utf16-receiver->hang",
 			`"é".replaceAll("", "a") never returns (unbounded allocation), whereas "e".replaceAll("", "a") is "aea": unicodeString.index returns start for an empty needle even when start > length`,
-			map[string]interface{}{"kind": "tree", "tree": t, "hang": true})
+			map[string]interface{}{"kind": "tree", "tree": t, "hang": true, "signature": "replaceAll|empty-search-on-utf16-receiver->hang"})
 		c.r.Set("excluded_class", `replaceAll with an empty search string on a receiver stored as UTF-16 (known hang), skipped cases counted in "skipped_known_hang"`)
 	}
 }
@@ -584,6 +604,18 @@ func (c *checker) level(sg *stage) bool {
 		}
 		return frontier[i].idx < frontier[j].idx
 	})
+	if v := os.Getenv("VERIF_C06_FRONTIER_MOD"); v != "" && d >= 2 { // diagnostic only (smoke tests of the deep stages)
+		k := 1
+		fmt.Sscan(v, &k)
+		var sub []*state
+		for i, s := range frontier {
+			if i%max(k, 1) == 0 {
+				sub = append(sub, s)
+			}
+		}
+		frontier = sub
+		c.stateCapHit.Store(true) // such a run is never reported as exhaustive
+	}
 	if os.Getenv("VERIF_C06_HIST") != "" {
 		hist := map[int]int{}
 		for _, s := range frontier {
@@ -652,7 +684,7 @@ func (c *checker) level(sg *stage) bool {
 		locals[i] = map[string]*state{}
 	}
 	var evals, skipped, excluded, nonString atomic.Int64
-	ok := c.guarded(total, 4096, sg.name, func(worker int, lo, hi int64) {
+	ok := c.guarded(total, 1024, sg.name, func(worker int, lo, hi int64) {
 		w := c.ws[worker]
 		sl := &c.slots[worker]
 		local := locals[worker]
@@ -756,6 +788,9 @@ func (c *checker) level(sg *stage) bool {
 		return false
 	}
 	c.flush()
+	if !ok {
+		return false // cut by the budget: the partial state table of this stage is not used
+	}
 	c.merge(locals)
 	return ok
 }
@@ -1063,6 +1098,7 @@ func replay(r *core.Run, raw json.RawMessage) {
 		Kind string    `json:"kind"`
 		Tree *treeJSON `json:"tree"`
 		Hang bool      `json:"hang"`
+		Sig  string    `json:"signature"`
 		Obs  string    `json:"observable"`
 		A    *treeJSON `json:"a"`
 		B    *treeJSON `json:"b"`
@@ -1081,7 +1117,11 @@ func replay(r *core.Run, raw json.RawMessage) {
 		if hdr.Hang {
 			switch res := probe(t); {
 			case res == "hang":
-				r.Violation("hang|"+t.op.class, "evaluation of "+t.String()+" does not terminate", raw)
+				sig := hdr.Sig
+				if sig == "" {
+					sig = "hang|" + opClassOf(t)
+				}
+				r.Violation(sig, "evaluation of "+t.String()+" does not terminate (3 CPU-seconds or 2 GB in a child process)", raw)
 			case len(res) > 5 && res[:5] == "fail:":
 				r.Violation(res[5:], "evaluation of "+t.String()+" fails", raw)
 			}
